@@ -23,6 +23,8 @@ pub struct Data {{ pub y: String }}
 """
 
 PAYLOADS = {
+    "fieldnames": "gas_limit: u64, msg: String",
+    "ctxnames": "gas_used: u64, note: String",
     "raw": "#[sv::payload(raw)] payload: Binary",
     "one": "first: Payload",
     "many": "first: u32, second: String, third: Addr",
@@ -130,6 +132,10 @@ def main():
     for dm, nm in (("", "typed"), ("opt", "opt"), ("raw", "raw"), ("raw, opt", "raw_opt"), ("instantiate", "inst"), ("instantiate, opt", "inst_opt")):
         mods.append(module(f"data_{nm}", [S(data=dm, payload="one")]))
     mods.append(module("generic_se", [S(data=""), E()], generic=True))
+    # payload parameters named like SubMsg fields (gas_limit, msg): the builder on an existing SubMsg must still encode the PARAMETERS
+    mods.append(module("payload_named_like_submsg_fields", [Al(payload="fieldnames")]))
+    # payload parameters named like bindings of the generated dispatcher (gas_used): the context must still carry the reply's gas
+    mods.append(module("payload_named_like_dispatch_locals", [S(payload="ctxnames"), E(payload="ctxnames")]))
     write_pkg("w-reply", "reply coverings (S, E, A, S+E in both orders, data on/off), payload shapes, multi-name, default name, data modes, generic contract", mods)
 
     # ---- thorough: exhaustive small tables
